@@ -200,8 +200,13 @@ func c03Check(c c03Case) (msg string, intactAfterDamage bool) {
 	var r res
 	select {
 	case r = <-ch:
-	case <-time.After(60 * time.Second):
-		return "recovery did not terminate within 60 s on a log of " + fmt.Sprint(len(damaged)) + " bytes", intactAfterDamage
+	case <-time.After(time.Minute):
+		// normally milliseconds; give a starved machine ten more minutes before calling it non-termination
+		select {
+		case r = <-ch:
+		case <-time.After(10 * time.Minute):
+			return "recovery did not terminate within 11 min on a log of " + fmt.Sprint(len(damaged)) + " bytes", intactAfterDamage
+		}
 	}
 	if r.pan != nil {
 		return fmt.Sprintf("recovery panicked: %v", r.pan), intactAfterDamage
